@@ -44,7 +44,7 @@ type Case struct {
 	Streams []ops.Hex `json:"streams"` // generated graphics shared by all goroutines
 }
 
-var jobKinds = []string{"render", "transcode", "disassemble", "viewbox", "generate", "resolve", "aspect", "color1", "options", "pathdata", "recorder", "zeroenc"}
+var jobKinds = []string{"render", "transcode", "disassemble", "viewbox", "generate", "resolve", "aspect", "color1", "options", "pathdata", "recorder", "zeroenc", "validate"}
 
 // shared state: one palette array read by everybody
 var sharedPalette = func() [64]color.RGBA {
@@ -118,6 +118,11 @@ func runJob(j Job, inputs [][]byte) uint64 {
 		g.ClosePathEndPath()
 		b, err2 := e.Bytes()
 		return hash(b, []byte(fmt.Sprint(err, err2)))
+	case "validate":
+		// validate-only decoding (nil Destination) with an option that looks at the metadata it is given
+		var seen ivg.Metadata
+		err := decode.Decode(nil, in, func(m *ivg.Metadata) { seen = *m }, decode.WithColorAt(j.Param%64, color.Gray{uint8(j.Param)}))
+		return hash([]byte(fmt.Sprint(seen, err)))
 	case "zeroenc":
 		// a zero-value Encoder, never Reset (the default metadata is implied)
 		var e encode.Encoder
@@ -221,14 +226,6 @@ func checkConcurrent(c Case) error {
 	palCopy := sharedPalette
 	defPal, defVB, defMeta, magic := ivg.DefaultPalette, ivg.DefaultViewBox, ivg.DefaultMetadata, append([]byte{}, ivg.MagicBytes...)
 
-	// serial results
-	want := make([][]uint64, len(c.Lists))
-	for g, list := range c.Lists {
-		want[g] = make([]uint64, len(list))
-		for i, j := range list {
-			want[g][i] = runJob(j, inputs)
-		}
-	}
 	before := raceLogSize()
 	old := runtime.GOMAXPROCS(c.Procs)
 	got := make([][]uint64, len(c.Lists))
@@ -249,6 +246,15 @@ func checkConcurrent(c Case) error {
 	wg.Wait()
 	runtime.GOMAXPROCS(old)
 
+	// serial results, computed after the concurrent phase so that the first case of a process
+	// meets the packages cold (state built lazily on first use is then built under concurrency)
+	want := make([][]uint64, len(c.Lists))
+	for g, list := range c.Lists {
+		want[g] = make([]uint64, len(list))
+		for i, j := range list {
+			want[g][i] = runJob(j, inputs)
+		}
+	}
 	if raceLogSize() > before {
 		return harness.Violatef("c18/data-race", "the race detector reported a data race while %d goroutines ran independent pipelines over shared inputs:\n%s", len(c.Lists), raceLogTail(before))
 	}
@@ -276,7 +282,7 @@ func checkConcurrent(c Case) error {
 	return nil
 }
 
-var subConc = harness.Define("concurrent", "N in {2,4,8,16,32} goroutines x GOMAXPROCS in {2,4,16}, each running a generated list of independent jobs (Decode->Renderer->raster/vec, Decode->Encoder, Disassemble, DecodeViewBox, Generator->Encoder, Color.Resolve, AspectMeet/Slice, DecodeColor1, Decode with palette options, ParsePathData, Decode->recorder) over shared corpus graphics, generated streams, one shared palette and the package-level defaults, built with -race: no race report, every result equals the serial result, shared inputs and package variables unchanged; non-trivial = at least two goroutines share an input", checkConcurrent)
+var subConc = harness.Define("concurrent", "N in {2,4,8,16,32} goroutines x GOMAXPROCS in {2,4,16}, each running a generated list of independent jobs (Decode->Renderer->raster/vec, Decode->Encoder, Disassemble, DecodeViewBox, Generator->Encoder, Color.Resolve, AspectMeet/Slice, DecodeColor1, Decode with palette options, Decode without a Destination and an option that looks at the metadata, ParsePathData, Decode->recorder, zero-value Encoder); the concurrent phase runs before the serial reference, so the first case of every process meets the packages cold over shared corpus graphics, generated streams, one shared palette and the package-level defaults, built with -race: no race report, every result equals the serial result, shared inputs and package variables unchanged; non-trivial = at least two goroutines share an input", checkConcurrent)
 
 func TestConcurrent(t *testing.T) {
 	all := corpus.All()
